@@ -116,6 +116,7 @@ class SimServer:
         self.sasl_seen = []            # decoded credentials per AUTHENTICATE exchange
         self.oauth_challenge_on_fail = False
         self.inject_after_starttls = False
+        self.cap_variation = False     # case of capability names and order of capability lines are drawn
         self.self_check = True
         self.fault_counts = {}
         self.shape_counts = {}
@@ -258,9 +259,23 @@ class SimServer:
             out.append((n, v))
         return out
 
-    def _cap_lines(self, conn):
+    def _cap_lines(self, conn, scope=None):
         lines = []
-        for n, v in self.caps(conn):
+        caps = self.caps(conn)
+        if self.cap_variation and scope is not None:
+            # capability names are case-insensitive and the order of the lines is free (RFC 5804 section 1.7 / ABNF literals)
+            with self.ch.abs_scope(scope):
+                order = self.ch.srv.int("cap.order", 3)
+                case = self.ch.srv.weighted("cap.case", [3, 1, 1])
+            if order == 1:
+                caps = caps[::-1]
+            elif order == 2:
+                caps = caps[2:] + caps[:2]
+            if case == 1:
+                caps = [(n.lower(), v) for n, v in caps]
+            elif case == 2:
+                caps = [(n.capitalize(), v) for n, v in caps]
+        for n, v in caps:
             l = [("s", n)]
             if v is not None:
                 l.append(("s", v))
@@ -274,7 +289,7 @@ class SimServer:
             dv = self.data_variation
             self.data_variation = False
             try:
-                self._reply(conn, rec, scope, b"OK", self._cap_lines(conn), None, b"ready")
+                self._reply(conn, rec, scope, b"OK", self._cap_lines(conn, scope), None, b"ready")
             finally:
                 self.data_variation = dv
             return
@@ -455,7 +470,7 @@ class SimServer:
         dv = self.data_variation
         self.data_variation = False
         try:
-            self._reply(conn, rec, scope, b"OK", self._cap_lines(conn), None, b"capability completed")
+            self._reply(conn, rec, scope, b"OK", self._cap_lines(conn, scope), None, b"capability completed")
         finally:
             self.data_variation = dv
 
@@ -557,7 +572,11 @@ class SimServer:
         for n in names:
             l = [("s", n)]
             if n == self.active:
-                l.append(("a", b"ACTIVE"))
+                marker = b"ACTIVE"
+                if self.order_variation:
+                    with self.ch.abs_scope(scope):
+                        marker = [b"ACTIVE", b"active", b"Active"][self.ch.srv.weighted("active.case", [4, 1, 1])]
+                l.append(("a", marker))
             lines.append(l)
         rec.applied = True
         self._reply(conn, rec, scope, b"OK", lines, None, b"listscripts completed")
